@@ -38,7 +38,7 @@ Next ==
                 ELSE IF e.e = "serve" /\ e.kind # "ok" /\ e.served THEN TRUE ELSE lf0
          st0 == IF fresh THEN 1 ELSE servedTo
          pf == IF fresh THEN 0 ELSE prevFrom
-         st1 == IF e.e = "serve" /\ e.kind = "ok" /\ e.served /\ pf # 0 /\ pf + e.h > st0 /\ ~e.free THEN pf + e.h ELSE st0
+         st1 == IF e.e = "serve" /\ e.kind = "ok" /\ e.served /\ pf # 0 /\ pf + e.servedN > st0 THEN pf + e.servedN ELSE st0
          F == Clauses(e, lrn1, lf1, ph, st1)
      IN /\ IF F = {} THEN TRUE ELSE PrintT(ToJson([k |-> "FAIL", l |-> l, tr |-> e.tr, i |-> e.i, preds |-> F]))
         /\ learned' = lrn1 /\ lastFault' = lf1 /\ prevHead' = e.head
